@@ -131,7 +131,10 @@ def materialize(docs):
 def effective_docs(docs):
     """the rule / filter documents a collection is made of, after the collection actions
     (global: template merged over every following rule, template wins; reset; repeat: previous rule
-    updated with the document) - what 'the source documents' of a rule are, per rule, own copies"""
+    updated with the document) - what 'the source documents' of a rule are, per rule, own copies.
+    SPECIFICATION: templates and repeats act on detection-rule documents only. A filter (and a correlation)
+    document is taken exactly as written - it keeps the log source and the rule list it declares, wherever it
+    stands in the stream - and it does not become the 'previous rule' of a following repeat."""
     out, glob_, prev = [], {}, {}
     for d in materialize(docs):
         d = copy.deepcopy(d)
@@ -420,11 +423,80 @@ def shared_pairs(rng=None, n=0):
     return out
 
 
+def stream_pairs(rng=None, n=0):
+    """filter documents INSIDE streams with collection actions: behind templates whose log source / other
+    attributes differ from the filter's, between repeat documents, before and after reset, with rules in
+    front of and behind the template. A filter document is never merged with a template: it keeps exactly
+    the log source and the rule list it declares (effective_docs leaves filter documents untouched)."""
+    out = []
+    def rule(i, ls, k, extra=None):
+        d = mk_rule("r%d" % i, ls, {"sel": det_body(k)}, ["sel"], None, "rule_%d" % i)
+        d.update(extra or {})
+        return d
+    def flt(j, ls, k, rules="any", cond="not flt"):
+        return mk_filter("f%d" % j, ls, {"flt": det_body(k)}, cond, rules)
+    lin, win, cat = {"category": "a", "product": "l"}, {"product": "w"}, {"category": "a"}
+    # the exposing stream: linux rule, template product: w, rule with the category only, filter {category}
+    out.append(([rule(0, lin, 0), {"action": "global", "logsource": win}, rule(1, cat, 1), flt(0, cat, 2)], 3))
+    out.append(([rule(0, lin, 0), {"action": "global", "logsource": win}, flt(0, cat, 2), rule(1, cat, 1)], 3))
+    out.append(([{"action": "global", "logsource": win}, flt(0, cat, 2), rule(0, lin, 0), rule(1, cat, 1)], 3))
+    out.append(([rule(0, lin, 0), {"action": "global", "logsource": {"category": "b"}}, rule(1, cat, 1), flt(0, cat, 2, ["rule_0"])], 3))
+    out.append(([rule(0, lin, 0), {"action": "global", "logsource": {"service": "s"}, "status": "test", "description": "tpl"},
+                 rule(1, cat, 1), flt(0, lin, 2), flt(1, {"service": "s"}, 3, "any", "not 1 of them")], 4))
+    # template that carries a detection and a condition
+    out.append(([rule(0, lin, 0), {"action": "global", "logsource": win, "detection": {"g": det_body(4), "condition": "1 of them"}},
+                 rule(1, cat, 1), flt(0, cat, 2), rule(2, lin, 3)], 5))
+    # before and after reset
+    out.append(([{"action": "global", "logsource": win}, rule(0, cat, 0), flt(0, cat, 2), {"action": "reset"}, rule(1, lin, 1), flt(1, lin, 3)], 4))
+    out.append(([{"action": "global", "logsource": win}, rule(0, cat, 0), {"action": "reset"}, flt(0, cat, 2), rule(1, lin, 1)], 3))
+    # between repeat documents
+    rep = lambda i, k: {"action": "repeat", "title": "r%d" % i, "name": "rule_%d" % i, "detection": {"rep%d" % i: det_body(k)}}
+    out.append(([rule(0, lin, 0), rep(1, 1), flt(0, cat, 3), rep(2, 2), flt(1, lin, 4, ["rule_2", "rule_0"])], 5))
+    out.append(([{"action": "global", "logsource": win}, rule(0, cat, 0), flt(0, cat, 3), rep(1, 1), rule(2, lin, 2)], 4))
+    for _ in range(n):
+        ctr = Ctr()
+        docs, nr, nf, have_rule = [], 0, 0, False
+        for _ in range(rng.randint(4, 8)):
+            x = rng.random()
+            if x < 0.4 or not docs:
+                ls = rng.choice(all_ls())
+                names = rng.sample(RNAMES, rng.randint(1, 2))
+                cond = spell(gen_expr(rng, names, own_pats(rng, names, RPATS), rng.choice([0, 1])), rng)
+                d = mk_rule("r%d" % nr, ls, {nm: det_body(ctr.next()) for nm in names}, [cond], None, "rule_%d" % nr)
+                if rng.random() < 0.3:
+                    d["detection"]["condition"] = [cond]
+                docs.append(d); nr += 1; have_rule = True
+            elif x < 0.55:
+                t = {"action": "global", "logsource": rng.choice(all_ls())}
+                if rng.random() < 0.3:
+                    t["status"] = "test"
+                if rng.random() < 0.25:
+                    t["detection"] = {"g": det_body(ctr.next()), "condition": rng.choice(["1 of them", "g", ["all of them"]])}
+                docs.append(t); have_rule = False
+            elif x < 0.62:
+                docs.append({"action": "reset"})
+            elif x < 0.72 and have_rule:
+                docs.append({"action": "repeat", "title": "r%d" % nr, "name": "rule_%d" % nr,
+                             "detection": {"rep%d" % nr: det_body(ctr.next())}})
+                nr += 1
+            elif nf < 3 and ctr.k < 9:
+                fn = rng.sample(FNAMES, rng.randint(1, 2))
+                fc = spell(gen_expr(rng, fn, own_pats(rng, fn, FPATS), rng.choice([0, 1]), pnot=0.5), rng)
+                refs = rng.choice(["any", "any", "any", ["rule_0", "rule_1"], ["rule_%d" % max(0, nr - 1)], []])
+                docs.append(mk_filter("f%d" % nf, rng.choice(all_ls()[:12] + [{"category": "a"}, {"product": "a"}]),
+                                      {nm: det_body(ctr.next()) for nm in fn}, fc, refs))
+                nf += 1
+        if nr and nf:
+            out.append((docs, ctr.k))
+    return out
+
+
 FORCED = ["aaaaaaaaaa", "aaaaaaaaaa", "aaaaaaaaaa", "bbbbbbbbbb", "bbbbbbbbbb", "cccccccccc"]
 
 
 def gen_apply(tier, rng):
-    pairs = small_pairs() + ls_pairs() + hostile_pairs() + shared_pairs(rng, 30 if tier == "quick" else 250)
+    pairs = small_pairs() + ls_pairs() + hostile_pairs() + shared_pairs(rng, 30 if tier == "quick" else 250) \
+        + stream_pairs(rng, 40 if tier == "quick" else 300)
     n = 100 if tier == "quick" else 800
     for i in range(n):
         pairs.append(gen_pair(rng, hostile=(i % 2 == 1)))
@@ -701,7 +773,8 @@ PROPERTY = Property(
          "one fixed pair per defect class incl. filter/rule names and patterns that are a rewrite keyword followed by '-', '*' or a digit (both cases, colliding names); "
          "rules that come out of one document or share one condition list object (action: global / reset / repeat, the same dict twice, one list in two "
          "documents; list- and string-valued conditions) with filters targeting several of them, judged per rule against the documents after the collection "
-         "actions (props effective_docs); random pairs (1-3 rules, 0-3 stacked filters, conditions with identifiers/not/and/or/selectors "
+         "actions (props effective_docs); filter documents inside such streams (behind templates with a different log source / extra attributes / a detection "
+         "section, between repeat documents, before and after reset, rules in front of and behind the template; filters are never merged with a template); random pairs (1-3 rules, 0-3 stacked filters, conditions with identifiers/not/and/or/selectors "
          "incl. 'them' and prefix/suffix patterns, hostile names: operator/keyword prefixes, digit/underscore/dash initial, keyword names, "
          "a name that is itself a '_filt_..' prefix; correlation rules; shuffled document order); each pair under 20 random.seed values, "
          "one forced draw sequence with repeated values, and (every 7th) collect_filters=True. non-trivial = some filter applies to some rule; "
